@@ -155,3 +155,33 @@ CONTRACTS[(V, 'ManagerV.new_block')] = {
                 'ocount(self._groups) == ocount(old(self._groups)) + 1', 'olast(self._groups) == result'] + [c.replace('self.', 'result.') for c in BLOCK_INV],
     'ensures_on_raise': ['self._formula._numvar == old(self._formula._numvar)', 'ocount(self._groups) == ocount(old(self._groups))'],
 }
+
+
+# single variables: SingletonVariableGroup and the allocator new_variable
+CLASSMODELS['SingleVar'] = {'file': V, 'real': 'SingletonVariableGroup', 'fields': {'name': 'opaque', 'ids': 'range:ids_lo:ids_hi', 'formula': 'opaque', 'labelfmt': 'opaque'},
+                            'invariant': ['self.ids_lo >= 1', 'self.ids_hi == self.ids_lo + 1']}
+CONTRACTS.update({
+    (V, 'SingleVar.__init__'): {
+        'property': ['C11', 'C10'], 'source': (V, 'SingletonVariableGroup.__init__'),
+        'params': {'self': 'newobj:SingleVar', 'formula': 'obj:BaseCNF', 'name': 'any'},
+        'requires': ['formula._numvar >= 0'], 'raises': {},
+        'ensures': ['self.ids_lo == formula._numvar + 1', 'self.ids_hi == self.ids_lo + 1', 'self.ids_lo >= 1'],
+    },
+    (V, 'SingleVar.__call__'): {
+        'property': ['C11'], 'source': (V, 'SingletonVariableGroup.__call__'), 'params': {}, 'returns': 'int', 'raises': {},
+        'ensures': ['result == self.ids_lo'],
+    },
+    (V, 'SingleVar.to_index'): {
+        'property': ['C11'], 'source': (V, 'SingletonVariableGroup.to_index'), 'params': {'lit': 'int'},
+        'raises': {'ValueError': 'abs(lit) != self.ids_lo'}, 'ensures': ['len(result) == 0'],
+    },
+    (V, 'ManagerV.new_variable'): {
+        'property': ['C10', 'C11'], 'source': (V, 'VariablesManager.new_variable'),
+        'params': {'self': 'obj:ManagerV', 'label': 'any'},
+        'calls_model': {'SingletonVariableGroup': 'SingleVar'},
+        'requires': ['self._formula._numvar >= 0'], 'raises': {}, 'returns': 'int',
+        # the new variable is exactly the next identifier; registered once, last
+        'ensures': ['result == old(self._formula._numvar) + 1', 'self._formula._numvar == result',
+                    'ocount(self._groups) == ocount(old(self._groups)) + 1'],
+    },
+})
